@@ -7,7 +7,6 @@ NA = {
  "C03": "state machine over Mutex<HashMap<PaymentId,..>> driven by events, monitor replays and restarts; no bounded integer kernel carries truthfulness; out of reach for Kani (hash maps, secp256k1) and for the MIR encoder (DESIGN.md §5 C03)",
  "C09": "ordering constraint between ChannelManager and ChainMonitor event streams (locks, hash maps, background events); no function-level input/output relation to encode (DESIGN.md §5 C09)",
  "C10": "whole-program crash/restart property: deserialisation of manager+monitors followed by arbitrary later behaviour; not encodable within reach (DESIGN.md §5 C10)",
- "C19": "filesystem calls, rename atomicity, threads and a real ChannelMonitor (secp256k1); no bounded kernel carries the property (DESIGN.md §5 C19)",
 }
 
 # property -> (engine, technique, level text, level note)
@@ -60,6 +59,9 @@ claim("C14", "K", K,
 claim("C15", "M", "SMT bounded model checking of MIR (z3 + cvc5 portfolio)",
       "Kernel level: (a) the nonce / key-rotation kernel of PeerChannelEncryptor - one message across encrypt_message_with_header_0s, decrypt_length_header and decrypt_message from an arbitrary coupled post-handshake state (an inductive step over any number of messages and key rotations): the message is accepted with its length and both sides stay in step, nonces are consecutive and never reused, keys rotate exactly at nonce 1000 on both sides, an altered header or body is rejected; AEAD and HKDF abstracted (keys as identities, decryption succeeds iff same key, nonce and unaltered bytes). (c) one iteration of the read loop of PeerManager::do_read_event from an arbitrary loop-head state: partial reads, completed length headers, bodies and handshake acts are reassembled for reads of any size, authentication failures and lengths below 2 drop the connection, the buffer invariant is preserved, no slice index can go out of range. (d) do_handle_message_holding_peer_lock / handle_message: nothing but Init is accepted before Init, a second Init is refused, a refused message is not handled. Replayed with two real encryptors (hook), with two real PeerManagers over in-memory sockets cut into fragments of ten sizes, and [d] through a raw initiator (hook). The handshake cryptography, write-side back-pressure and panics on arbitrary handshake bytes are outside the claim.",
       "trusted: rustc MIR dump, engine_m, z3/cvc5; crypto abstraction and the stubs of the read loop listed in the evidence")
+claim("C19", "M", "SMT bounded model checking of MIR (z3 + cvc5 portfolio), async bodies executed through their poll functions",
+      "Kernel level (narrow): the store operations the incremental-update persister (MonitorUpdatingPersisterAsyncInner, which the synchronous MonitorUpdatingPersister wraps) issues - update_persisted_channel, its synchronous part and its three async blocks executed for real: an update is written incrementally under its own id iff it is not the legacy id, incremental updates are enabled and the id is not a multiple of maximum_pending_updates, otherwise the full monitor is written (exactly one of the two); superseded updates are cleaned up only after a full write that succeeded, bounded by the update id of the monitor just written; success is reported iff the write succeeded. cleanup_in_range removes exactly start..=end; cleanup_stale_updates_for_monitor_to never removes an update above the stored monitor's id (<= 3 / 4 listed names). The key-value store is a stub with free outcomes; replayed on two live nodes persisting through the real persister (eight values of maximum_pending_updates), reading the store back after every payment. The stores themselves (FilesystemStore atomicity, threads), the recovery path's joined / batched reads and crash points between two store operations are outside the claim.",
+      "trusted: rustc MIR dump, engine_m (coroutine state values), z3/cvc5")
 claim("C20", "M", "SMT bounded model checking of MIR (z3 + cvc5 portfolio), async bodies executed through their poll functions",
       "Function level over lightning-block-sync's MIR, block hashes as identities, chain work as integers, every awaited future immediately ready with an arbitrary answer: check_builds_on (a parent must be named by hash, be one lower and account for the chain work; mainnet difficulty rules); ChainPoller's three async blocks (a parent / tip / block is accepted from a source only if it hashes - proof of work - to exactly the hash asked for; Better only with strictly more work); find_difference_from_header (most recent common ancestor and the contiguous list of blocks to connect, both tips <= 2 (quick) / 3 (thorough) blocks above it, arbitrary tree); connect_blocks (oldest first, each once, stops at the first failed fetch and reports the tip reached; <= 3 / 5 blocks); synchronize_listener (disconnect to the ancestor before connecting, nothing touched if the walk fails); update_chain_tip / poll_best_tip (the client's tip is where the listeners are; only Better tips move them). Counterexamples are replayed on the real SpvClient over ~900 fork shapes x source behaviours with a native validator of the notification sequence. Start-up synchronisation (init::synchronize_listeners), the header cache's eviction, proof-of-work / merkle validation itself and the HTTP sources are outside the claim.",
       "trusted: rustc MIR dump, engine_m (coroutine state values), z3/cvc5")
